@@ -8,7 +8,11 @@ Oracles on the real code (never use the model):
             written): tail(render(P + [marker] + S)) == tail(render(ctx(P) + [marker] + S))
   strip     norm_ws(render(strip=True)) == norm_ws(render(strip=False)), and the two renders are
             identical once every text outside whitespace-preserving elements is made blank-free
-Correspondence: the same renders against the Lean model (`gdrv C09 render`), all configurations.
+  cache-typed   the same with attribute values that are Markup instances (marked occurrences of a
+            stream's attribute values are wrapped in Markup): cache on == cache off on the whole pipeline
+Correspondence: the same renders against the Lean model (`gdrv C09 render`), all configurations;
+`gdrv C09 loopm`: the main loops alone (filters removed) on typed events — START / EMPTY data whose
+attribute values are Markup or plain — against the Lean model of the repaired loops (`loopT`).
 """
 import json
 from harness import proto, outlib
@@ -27,8 +31,8 @@ TRUSTED = [
     'C escape() vs escapePy: tied by C18',
 ]
 ASSUMPTIONS = [
-    'attribute values and text are str (a Markup-typed attribute value shares its cache key with the equal '
-    'plain string: known finding C09-markup-attr)',
+    'attribute values and text are str or Markup (values of other types that compare equal but are written '
+    'differently, e.g. True and 1, are outside the event vocabulary)',
     'DOCTYPE names are non-empty; doctype option names are known to DocType.get',
     'for the history oracle: raw-text elements contain only text (HTML content model)',
     'streams consist of Unicode scalar values',
@@ -55,11 +59,17 @@ PROFILES = [
     # few tags and attributes so that the identical start tag recurs under different made-up bindings (seeded C09-3)
     ('ns-heavy-builder', 2, dict(ns='heavy', allow_heavy=True, root=True, ns_events=False, pool=2, max_nodes=16,
                                  attr_counts=[0, 0, 0, 1], tags=['div', 'p', 'b', 'item'])),
+    # few tags, few attribute names, two pooled values; a random third of the attribute values is wrapped in
+    # Markup (oracle cache-typed, correspondence loopm): the same start tag recurs with the same value text
+    # once as Markup and once as plain string (fixed C09-markup-attr)
+    ('typed-attrs', 2, dict(pool=2, max_nodes=12, attr_counts=[0, 1, 1, 2], pool_prob=0.9,
+                            tags=['div', 'p', 'a', 'br', 'script', 'input'])),
     ('odd', 1, dict(pool=3, raw_markup=True, void_kids=True, cdata=0.15, comments=0.1, pis=0.05, max_nodes=12,
                     safe_text=0.1, comment_dashes=True, attr_ws=True, text_cr=True)),
 ]
 DOCTYPE_OPTS = [None, None, None, ['name', 'html'], ['name', 'xhtml-strict'], ['name', 'HTML5'],
-                ['tuple', 'html', None, 'about:legacy-compat'], ['tuple', 'x"<y', 'p&ub', None]]
+                ['tuple', 'html', None, 'about:legacy-compat'], ['tuple', 'x"<y', 'p&ub', None],
+                ['tuple', 'html', None, 'sys"tem.dtd']]
 
 
 def pick_profile(rng):
@@ -245,6 +255,12 @@ def oracle_case(case):
         out = outlib.render(js, cfg_of(case))
         if out != case['expect']:
             return bad(case.get('what', 'documented output'), case['expect'], out)
+    elif kind == 'cache-typed':
+        on = render_typed(js, case['marks'], cfg_of(case, cache=True))
+        off = render_typed(js, case['marks'], cfg_of(case, cache=False))
+        if on != off:
+            return bad('output with the event cache enabled equals output with it disabled (Markup attribute values)',
+                       off, on)
     elif kind == 'markup-attr':
         # a Markup-typed attribute value and the equal plain string in one stream
         from genshi.core import START, END, TEXT, QName, Attrs, Markup
@@ -260,6 +276,85 @@ def oracle_case(case):
     else:
         raise ValueError(kind)
     return None
+
+
+# --------------------------------------------------------------------------
+# attribute values that are Markup instances
+
+def typed_events(js, marks):
+    """genshi events of the stream with the attribute values at `marks` ([event index, attribute index])
+    wrapped in Markup"""
+    from genshi.core import Markup, Attrs
+    evs = G.to_events(js)
+    for i, j in marks:
+        kind, (tag, attrs), pos = evs[i]
+        attrs = list(attrs)
+        attrs[j] = (attrs[j][0], Markup(attrs[j][1]))
+        evs[i] = (kind, (tag, Attrs(attrs)), pos)
+    return evs
+
+
+def render_typed(js, marks, cfg):
+    try:
+        return ''.join(outlib.serializer(cfg)(iter(typed_events(js, marks))))
+    except Exception as e:  # noqa
+        return ('err', type(e).__name__)
+
+
+def valid_marks(js, marks):
+    return isinstance(marks, list) and all(
+        isinstance(m, list) and len(m) == 2 and isinstance(m[0], int) and isinstance(m[1], int) and
+        0 <= m[0] < len(js) and js[m[0]][0] == 'S' and 0 <= m[1] < len(js[m[0]][2]) for m in marks)
+
+
+def typed_items(js, marks):
+    """what reaches the main loop for a namespace-free stream with strip off: EmptyTagFilter applied, names
+    flattened.  Items: ['TAG', empty, name, [[attr, value, is_markup], ...]] or a JSON-form event"""
+    items, i = [], 0
+    marks = set(map(tuple, marks))
+    while i < len(js):
+        e = js[i]
+        if e[0] == 'S':
+            empty = i + 1 < len(js) and js[i + 1][0] == 'E'
+            attrs = [[a[1] if not a[0] else 'xml:' + a[1], v, (i, j) in marks] for j, (a, v) in enumerate(e[2])]
+            items.append(['TAG', empty, e[1][1], attrs])
+            i += 2 if empty else 1
+        else:
+            items.append(e)
+            i += 1
+    return items
+
+
+def loop_real(items, method, cache, dropd):
+    """the real main loop alone (the filters removed) on typed items"""
+    from genshi import output
+    from genshi.core import START, Markup, Attrs
+    pos = (None, -1, -1)
+    evs = []
+    for it in items:
+        if it[0] == 'TAG':
+            evs.append((output.EMPTY if it[1] else START,
+                        (it[2], Attrs([(a, Markup(v) if f else v) for a, v, f in it[3]])), pos))
+        elif it[0] == 'E':
+            evs.append((G.to_events([it])[0][0], it[1][1], pos))
+        else:
+            evs.append(G.to_events([it])[0])
+    ser = outlib.serializer(outlib.config(method, False, cache, None, dropd))
+    ser.filters = []
+    try:
+        return ''.join(ser(iter(evs)))
+    except Exception as e:  # noqa
+        return ('err', type(e).__name__)
+
+
+def loopm_line(items, method, cache, dropd):
+    wire = []
+    for it in items:
+        if it[0] == 'TAG':
+            wire.append([Atom('TAG'), outlib.B(it[1]), it[2], [[a, v, outlib.B(f)] for a, v, f in it[3]]])
+        else:
+            wire.append(G.to_wire([it])[0])
+    return proto.line(Atom('C09'), Atom('loopm'), Atom(method), outlib.B(cache), outlib.B(dropd), wire)
 
 
 # --------------------------------------------------------------------------
@@ -330,11 +425,46 @@ def shard(arg):
     rng = random.Random('%s/%s/C09' % (seed, idx))
     res = Result()
     lines, meta = [], []
+    tlines, tmeta = [], []
     for _ in range(n):
         profile, knobs = pick_profile(rng)
         js = G.gen_stream(rng, **knobs)
         res.count('profile:' + profile)
         res.count('events', len(js))
+        if profile == 'typed-attrs':
+            # make the collision likely: one start tag with attributes occurs a second time (as an empty element
+            # at the end of the stream) with the same value text, Markup in exactly one of the two places
+            cands = [i for i, e in enumerate(js) if e[0] == 'S' and e[2] and e[2][0][0][0] == '']
+            twin = None
+            if cands and rng.random() < 0.8:
+                i = rng.choice(cands)
+                if rng.random() < 0.7:
+                    js[i][2][0][1] = rng.choice(['x&y', 'a<b', '"q"', '&amp;', '1 > 0'])
+                e = json.loads(json.dumps(js[i]))
+                js = js + [e, ['E', e[1]]]
+                twin = ([i, 0], [len(js) - 2, 0])
+            slots = [[i, j] for i, e in enumerate(js) if e[0] == 'S' for j in range(len(e[2]))]
+            marks = [sl for sl in slots if rng.random() < 0.35]
+            if twin:
+                marks = [m for m in marks if m not in twin] + [twin[rng.randrange(2)]]
+                marks.sort()
+                res.count('typed:same-start-tag-markup-and-plain')
+                res.nontrivial.add(json.dumps([js, marks], sort_keys=True)[:300])
+            for m in outlib.METHODS:
+                for strip in (True, False):
+                    c = {'kind': 'cache-typed', 'stream': js, 'marks': marks, 'method': m, 'strip': strip}
+                    res.evaluations += 1
+                    res.count('oracle:cache-typed')
+                    f = oracle_case(c)
+                    if f:
+                        res.failures.append(f)
+            if G.lean_char_ok(js):
+                items = typed_items(js, marks)
+                dropd = rng.random() < 0.7
+                for m in outlib.METHODS:
+                    for cache in (True, False):
+                        tlines.append(loopm_line(items, m, cache, dropd))
+                        tmeta.append((items, m, cache, dropd, js, marks))
         multi, rep = stream_features(js)
         if multi:
             res.count('streams-with-text-in-several-contexts')
@@ -360,6 +490,18 @@ def shard(arg):
     # regex model against Python's re
     ws_texts = [G.rand_text(rng, 'ws', 14) for _ in range(n)]
     ws_lines = [proto.line(Atom('C09'), Atom('wsnorm'), t) for t in ws_texts]
+    for (items, m, cache, dropd, js, marks), ans in zip(tmeta, proto.run_lines(tlines)):
+        model = outlib.model_answer(ans)
+        if model is None:
+            res.count('model:unmodelled:loopm')
+            continue
+        real = loop_real(items, m, cache, dropd)
+        res.streams['loopm'] = res.streams.get('loopm', 0) + 1
+        res.evaluations += 1
+        if model != real:
+            res.disagreements.append({'stream': 'loopm', 'case': {'kind': 'cache-typed', 'stream': js, 'marks': marks,
+                                                                   'method': m, 'strip': False},
+                                      'model': repr(model)[:600], 'real': repr(real)[:600]})
     answers = proto.run_lines(lines + ws_lines)
     for (js, cfg), ans in zip(meta, answers[:len(lines)]):
         model = outlib.model_answer(ans)
@@ -394,6 +536,10 @@ def fixed_cases():
         out.append({'kind': 'cache', 'method': m, 'strip': False, 'stream': [
             ['S', ['', 'div'], []], ['SC'], ['T', 'a<b', False], ['EC'], ['S', ['', 'p'], []], ['T', 'a<b', False],
             ['E', ['', 'p']], ['SC'], ['T', 'a<b', False], ['EC'], ['E', ['', 'div']]]})
+        out.append({'kind': 'markup-attr', 'method': m, 'strip': False, 'value': 'x&y'})
+        out.append({'kind': 'cache-typed', 'method': m, 'strip': True, 'marks': [[3, 0]], 'stream': [
+            ['S', ['', 'a'], [[['', 't'], 'x&y']]], ['T', 'q', False], ['E', ['', 'a']],
+            ['S', ['', 'a'], [[['', 't'], 'x&y']]], ['T', 'q', False], ['E', ['', 'a']]]})
     return out
 
 
@@ -424,6 +570,15 @@ def search(ctx, res, broken):
         if 'stream' not in c:
             continue
         js = c['stream']
+        if c.get('kind') == 'cache-typed':
+            for m in outlib.METHODS:
+                for strip in (True, False):
+                    f = oracle_case(dict(c, method=m, strip=strip))
+                    if f:
+                        found.append(f)
+            if found:
+                return found
+            continue
         for m in outlib.METHODS:
             for k in ({'kind': 'cache', 'strip': False}, {'kind': 'cache', 'strip': True}, {'kind': 'strip', 'cache': True}):
                 case = dict(k, stream=js, method=m, doctype=c.get('doctype'), drop_xml_decl=c.get('drop_xml_decl', True))
@@ -454,6 +609,8 @@ def replay(ctx, case):
     if not outlib.valid_config(case):
         return None
     if 'stream' in case and not G.valid_stream(case['stream']):
+        return None
+    if case.get('kind') == 'cache-typed' and not valid_marks(case.get('stream') or [], case.get('marks')):
         return None
     if case.get('kind') == 'history' and not (isinstance(case.get('cut'), int) and 0 <= case['cut'] <= len(case['stream'])):
         return None
